@@ -102,6 +102,14 @@ def run_roundtrip(W, cfg):
     if cfg['out']:
         W.ob_true('idft2 returns its out buffer', W.same(g, kw['out']))
         W.ob('the out buffer holds the inverse', kw['out'], fin)
+    # transforming in place: the output buffer is the input array itself (forward and inverse)
+    G2 = lt.fourier.dft2(fin.copy(), alpha, unitary=cfg['unitary'])
+    gi = lt.fourier.idft2(G2, alpha, unitary=cfg['unitary'], out=G2)
+    W.ob_true('idft2(F, out=F) returns that array', W.same(gi, G2))
+    W.ob('idft2(F, out=F) holds the inverse', G2, fin)
+    f2 = fin.copy()
+    Gi = lt.fourier.dft2(f2, alpha, unitary=cfg['unitary'], out=f2)
+    W.ob('dft2(f, out=f) holds the transform', f2, G)
     if cfg['unitary']:
         # energy: sum |idft2(H)|^2 == sum |H|^2 for arbitrary H
         H = W.complexes('h', (m, n))
